@@ -96,6 +96,17 @@ func StartPart(prop, level, part string) *Run {
 	return r
 }
 
+// OpenKeys returns the keys of the open known findings of this property.
+func (r *Run) OpenKeys() []string {
+	var out []string
+	for _, f := range r.findings {
+		if f.Property == r.Prop && f.Status == "open" {
+			out = append(out, f.Key)
+		}
+	}
+	return out
+}
+
 // Thorough reports whether the thorough tier was requested.
 func (r *Run) Thorough() bool { return r.Tier == "thorough" }
 
